@@ -320,18 +320,27 @@ func c09Body(w *W) {
 		w.Sample("random")
 		return
 	}
-	pb := 1
+	pb := 2
 	if w.Thorough() {
-		pb = 2
+		pb = 3
 	}
-	w.Note(fmt.Sprintf("environment answers enumerated per stream: every set of <= 2 cut positions of the reader (thorough 3), a reader fault after every byte count with and without data in the same call, recycle-or-keep per delivered value, GOMAXPROCS in {1,3} (queue capacity 1, 2), result-channel capacity {0,2}, chunk buffer size {64 bytes (scaled constant, run-time knob VerifTmpSize), 10 MiB (real constant, default schedule only)}; schedules: every interleaving of consumer / forwarder / reader / chunk parsers, unbounded, with state-key pruning (pb parameter %d unused)", pb))
+	w.Note(fmt.Sprintf("environment answers enumerated per stream: every set of <= 2 cut positions of the reader (thorough 3), a reader fault after every byte count with and without data in the same call, recycle-or-keep per delivered value, GOMAXPROCS in {1,3} (queue capacity 1, 2), result-channel capacity {0,2}, chunk buffer size {64 bytes (scaled constant, run-time knob VerifTmpSize), 10 MiB (real constant, default schedule only)}; schedules: every schedule of consumer / forwarder / reader / chunk parsers with <= %d deviations from the deterministic default scheduler (a deviation = any non-default answer: running another thread than the default one, or a fresh instead of a recycled pool object), no state merging; the six-chunk all-recycled scenario with <= 3 deviations, sharded over all workers; for the one-document stream and the empty ones additionally every interleaving outright (unbounded search with state-key pruning)", pb))
 	type job struct {
-		env   c09Env
-		bound int
+		env    c09Env
+		bound  int
+		shards int // > 1: this job is explored by all workers together
 	}
 	run := func(j job, stream []byte, want []string) {
-		e := &vexp.Explorer{Bound: -1, N: 1, Stop: func() bool { return w.Expired() || w.TooManyViolations() },
-			StateKey: func() uint64 { return vsched.CurrentKey(nil) }}
+		// engine: deviation-bounded DFS without any state merging (every non-default answer of
+		// the scheduler or the pool costs one deviation); j.bound < 0 selects the unbounded
+		// search with state-key pruning instead (smallest scenarios only)
+		e := &vexp.Explorer{Bound: j.bound, AllCostly: true, N: 1, Stop: func() bool { return w.Expired() || w.TooManyViolations() }}
+		if j.shards > 1 {
+			e.N, e.Shard = w.N, w.Shard
+		}
+		if j.bound < 0 {
+			e.StateKey = func() uint64 { return vsched.CurrentKey(nil) }
+		}
 		var obs c09Obs
 		e.Exec = func(ch vsched.Chooser) bool {
 			enc, _ := json.Marshal(j.env)
@@ -359,9 +368,15 @@ func c09Body(w *W) {
 			}
 		}
 		e.Explore()
-		w.res.States += e.Stats.States
+		if j.bound < 0 {
+			w.res.States += e.Stats.States
+		} else {
+			w.res.States += e.Stats.Points
+		}
 		w.res.Transitions += e.Stats.Transitions
-		w.Count("environment_vectors", 1)
+		if j.shards <= 1 || w.Shard == 0 {
+			w.Count("environment_vectors", 1)
+		}
 		w.Max("max_states_for_one_environment_vector", e.Stats.States)
 		if e.Stats.Capped {
 			w.res.Capped = true
@@ -386,12 +401,8 @@ func c09Body(w *W) {
 		if si == 8 {
 			// six one-line chunks, every value recycled: a chunk buffer handed back to the pool
 			// twice (or too early) is taken by the reader while a parser still owns it
-			if w.Mine() {
-				run(job{c09Env{Stream: si, Cuts: []int{4, 8, 12, 16, 20}, FaultAt: -1, Recycle: 0xff, Gomax: 3, ResCap: 0, TmpSize: 64}, pb}, stream, want)
-			}
-			if w.Mine() {
-				run(job{c09Env{Stream: si, Cuts: []int{4, 8, 12, 16, 20}, FaultAt: -1, Recycle: 0xff, Gomax: 1, ResCap: 2, TmpSize: 64}, pb}, stream, want)
-			}
+			run(job{c09Env{Stream: si, Cuts: []int{4, 8, 12, 16, 20}, FaultAt: -1, Recycle: 0xff, Gomax: 3, ResCap: 0, TmpSize: 64}, 3, w.N}, stream, want)
+			run(job{c09Env{Stream: si, Cuts: []int{4, 8, 12, 16, 20}, FaultAt: -1, Recycle: 0xff, Gomax: 1, ResCap: 2, TmpSize: 64}, 3, w.N}, stream, want)
 			continue
 		}
 		type cfg struct{ gomax, rc, recycle int }
@@ -408,15 +419,21 @@ func c09Body(w *W) {
 				if !w.Mine() {
 					continue
 				}
-				run(job{c09Env{Stream: si, Cuts: cuts, FaultAt: -1, Recycle: c.recycle, Gomax: c.gomax, ResCap: c.rc, TmpSize: 64}, pb}, stream, want)
+				run(job{c09Env{Stream: si, Cuts: cuts, FaultAt: -1, Recycle: c.recycle, Gomax: c.gomax, ResCap: c.rc, TmpSize: 64}, pb, 0}, stream, want)
 			}
 		})
+		// smallest scenarios additionally: EVERY interleaving (unbounded, state-key pruning)
+		if n <= 8 {
+			if w.Mine() {
+				run(job{c09Env{Stream: si, FaultAt: -1, Recycle: 0xff, Gomax: 3, ResCap: 0, TmpSize: 64}, -1, 0}, stream, want)
+			}
+		}
 		// the reader returns its last bytes together with io.EOF (allowed by io.Reader)
 		subsetsUpTo(n, 1, func(cuts []int) {
 			if !w.Mine() {
 				return
 			}
-			run(job{c09Env{Stream: si, Cuts: cuts, FaultAt: -1, Recycle: 0xff, Gomax: 3, ResCap: 0, TmpSize: 64, EOFData: true}, pb}, stream, want)
+			run(job{c09Env{Stream: si, Cuts: cuts, FaultAt: -1, Recycle: 0xff, Gomax: 3, ResCap: 0, TmpSize: 64, EOFData: true}, pb, 0}, stream, want)
 		})
 		// mixed recycle masks
 		subsetsUpTo(n, map[bool]int{true: 0, false: 1}[quick], func(cuts []int) {
@@ -424,7 +441,7 @@ func c09Body(w *W) {
 				if !w.Mine() {
 					continue
 				}
-				run(job{c09Env{Stream: si, Cuts: cuts, FaultAt: -1, Recycle: recycle, Gomax: 3, ResCap: 0, TmpSize: 64}, pb}, stream, want)
+				run(job{c09Env{Stream: si, Cuts: cuts, FaultAt: -1, Recycle: recycle, Gomax: 3, ResCap: 0, TmpSize: 64}, pb, 0}, stream, want)
 			}
 		})
 		// reader faults at every byte (thorough: combined with every single cut)
@@ -434,7 +451,7 @@ func c09Body(w *W) {
 					if !w.Mine() {
 						return
 					}
-					run(job{c09Env{Stream: si, Cuts: cuts, FaultAt: f, WithData: wd, Recycle: 0xff, Gomax: 3, ResCap: 0, TmpSize: 64}, pb}, stream, want)
+					run(job{c09Env{Stream: si, Cuts: cuts, FaultAt: f, WithData: wd, Recycle: 0xff, Gomax: 3, ResCap: 0, TmpSize: 64}, pb, 0}, stream, want)
 				})
 			}
 		}
@@ -443,7 +460,7 @@ func c09Body(w *W) {
 			if !w.Mine() {
 				return
 			}
-			run(job{c09Env{Stream: si, Cuts: cuts, FaultAt: -1, Recycle: 0xff, Gomax: 3, ResCap: 0, TmpSize: 10 << 20}, 0}, stream, want)
+			run(job{c09Env{Stream: si, Cuts: cuts, FaultAt: -1, Recycle: 0xff, Gomax: 3, ResCap: 0, TmpSize: 10 << 20}, 0, 0}, stream, want)
 		})
 		if w.Expired() || w.TooManyViolations() {
 			break
